@@ -12,7 +12,7 @@
     every delivery schedule.  [fx] is the variant of [fetch] (finding F5): [FixNone] = the code as
     it is, [FixStale] = "clear the entry if it is stale" (candidate of DESIGN.md section 6),
     [FixClear] = "always drop the cached entry after taking the cache write lock". *)
-From Remoc Require Import Lib.Base Robj.RwLock Robj.RwLockProofs Robj.RwLockProgress.
+From Remoc Require Import Lib.Base Robj.RwLock Robj.RwLockProofs Robj.RwLockProgress Run.RunRwLock Robj.RwLockAccept.
 
 (** Exclusion, for every variant, every configuration, every interleaving: while a write guard
     exists (from the moment the owner hands the value out until commit / drop) no client holds a
@@ -106,6 +106,15 @@ Theorem C17_terminates : forall fx v0 nk cache_of acts iacts s',
   forallb internal iacts = true -> run_strict fx iacts s = Some s' -> len iacts + mu s' <= mu s.
 Proof. exact terminates_reach. Qed.
 
+(** The tie: the acceptance search of Run/RunRwLock.v (what the recorded implementation histories are
+    checked against) only keeps states of this small-step system -- reached from a tracked state by
+    the user action and then internal actions, each enabled when taken, up to quiescence, and
+    showing exactly the recorded observation. *)
+Theorem C17_acceptance_sound : forall fx states a o quiet kept s,
+  accept_step fx states a o = Some (quiet, kept) -> In s kept ->
+  exists t, In t states /\ reach_int fx (step' fx t a) s /\ successors fx s = [] /\ obs s = o.
+Proof. exact accept_step_sound. Qed.
+
 (** Non-vacuity: a run in which a remote reader (own cache) and a local reader hold read guards on
     the initial value, a writer waits, gets the guard after both release, commits 9, and a later
     read shows 9 with commit index 1. *)
@@ -126,3 +135,4 @@ Print Assumptions C17_progress_refuted_clear_if_stale.
 Print Assumptions C17_progress.
 Print Assumptions C17_measure.
 Print Assumptions C17_terminates.
+Print Assumptions C17_acceptance_sound.
